@@ -862,6 +862,14 @@ func (b *BlockCtx) buildV2(t AbsTx) (types.V2Transaction, error) {
 		a := s.K.Addr(t.Fnd)
 		txn.NewFoundationAddress = &a
 	}
+	for i := 0; i < t.Att; i++ {
+		a := types.Attestation{PublicKey: s.K.PK("A"), Key: fmt.Sprintf("key-%d-%d-%d", b.height, b.n, i), Value: []byte{byte(i), 1, 2}}
+		a.Signature = s.K.SK("A").SignHash(s.CS.AttestationSigHash(a))
+		if t.Aauth == "badsig" && i == t.Att-1 {
+			a.Signature[4] ^= 1
+		}
+		txn.Attestations = append(txn.Attestations, a)
+	}
 	h := s.CS.InputSigHash(txn)
 	for _, ia := range ins {
 		var sigs []types.Signature
@@ -1035,6 +1043,9 @@ func (s *Sim) Compare(p *Post) []string {
 	}
 	if s.CS.SiafundTaxRevenue != cur(p.Pool) {
 		add("siafund pool %v, spec %d", s.CS.SiafundTaxRevenue.ExactString(), p.Pool)
+	}
+	if s.CS.Attestations != p.Att {
+		add("%d attestations so far, spec %d", s.CS.Attestations, p.Att)
 	}
 	if s.CS.FoundationSubsidyAddress != s.K.Addr(p.Fnd.P) || s.CS.FoundationManagementAddress != s.K.Addr(p.Fnd.M) {
 		add("foundation addresses %s/%s, spec %s/%s", s.K.NameOf(s.CS.FoundationSubsidyAddress), s.K.NameOf(s.CS.FoundationManagementAddress), p.Fnd.P, p.Fnd.M)
